@@ -240,11 +240,14 @@ class Attach(Part):
     def describe(self, tier):
         return ('3-bus two-machine base system + each attachable dynamic model with default parameters (exciters, governors, '
                 'stabilisers, compensator, renewable generators / controllers, distributed generators, dynamic loads, motors, '
-                'measurement devices)' + ('; all exciter x governor pairs' if tier != 'quick' else ''))
+                'measurement devices), once in service and once out of service (u = 0)' + ('; all exciter x governor pairs' if tier != 'quick' else ''))
 
     def cases(self, tier):
         models = attachable()
         out = [[m] for m, g in models] + [[]]
+        # the same attachment with the new device out of service (u = 0): it must neither move the operating point nor
+        # leave residuals behind (an offline device replaces nothing)
+        out += [['off:' + m] for m, g in models]
         if tier != 'quick':
             ex = [m for m, g in models if g == 'Exciter']
             gv = [m for m, g in models if g == 'TurbineGov']
@@ -264,10 +267,14 @@ class Attach(Part):
         try:
             added = set()
             for k, m in enumerate(case):
+                off = m.startswith('off:')
+                m = m[4:] if off else m
                 for model, params in CHAINS[groups[m]](m):
                     p = dict(params)
                     if p.get('idx') == 'X':
                         p['idx'] = f'X{k}'
+                    if off and model == m:
+                        p['u'] = 0
                     if (model, p['idx']) in added:
                         continue
                     added.add((model, p['idx']))
